@@ -138,6 +138,52 @@ def check_pass(pass_name, choice_seed):
     return None
 
 
+def make_pass(pass_name, choice_seed):
+    """An instance of a registered pass with generated option values (None if the pass needs options of an unsupported type or rejects the combination)."""
+    from xdsl.transforms import get_all_passes
+
+    cls = get_all_passes()[pass_name]()
+    rnd = random.Random(f"{pass_name}/{choice_seed}")
+    hints = typing.get_type_hints(cls)
+    kwargs = {}
+    for f in dataclasses.fields(cls):
+        if f.name == "name" or not f.init:
+            continue
+        vs = field_values(hints[f.name], rnd)
+        required = f.default is dataclasses.MISSING and f.default_factory is dataclasses.MISSING
+        if vs is None:
+            if required:
+                return None
+            continue
+        if required or rnd.random() < 0.8:
+            kwargs[f.name] = rnd.choice(vs)
+    try:
+        return cls(**kwargs)
+    except Exception:  # noqa: BLE001
+        return None
+
+
+@rechecked
+def check_pipeline_with_options(names, choice_seed):
+    """A pipeline in which passes carry options and the SAME pass may occur several times with different options: printed with ',' it parses back to the same pipeline."""
+    from xdsl.passes import PassPipeline
+    from xdsl.transforms import get_all_passes
+
+    allp = get_all_passes()
+    ps = [make_pass(n, f"{choice_seed}/{i}") for i, n in enumerate(names)]
+    if any(p is None for p in ps):
+        return None
+    text = ",".join(str(p.spec()) for p in ps)
+    try:
+        back = PassPipeline.parse_spec(allp, text).passes
+    except BaseException as e:  # noqa: BLE001
+        flat = tuple(x for p in ps for v in dataclasses.asdict(p).values() for x in (v if isinstance(v, tuple) else (v,)) if x is not None)
+        return {"key": "C18/pipeline", "what": f"printed pipeline does not parse back: {type(e).__name__}: {str(e)[:120]}", "text": text, "inputs": classify(flat)}
+    if tuple(back) != tuple(ps):
+        return {"key": "C18/pipeline", "what": "printed pipeline parses to a different pipeline", "text": text, "parsed": ",".join(str(p.spec()) for p in back)[:300], "inputs": {}}
+    return None
+
+
 @rechecked
 def check_pipeline(names, choice_seed):
     from xdsl.passes import PassPipeline
@@ -202,6 +248,14 @@ def explore(tier, seed):
     for k in range(20 if tier == "quick" else 200):
         cases += 1
         note(check_pipeline(rnd.sample(names, rnd.randrange(2, 5)), k))
+    # pipelines whose passes carry options, with REPEATED passes (same name, independently generated options)
+    with_opts = [n for n in names if any(make_pass(n, f"probe/{k}") is not None and dataclasses.asdict(make_pass(n, f"probe/{k}")) for k in range(2))]
+    for k in range(60 if tier == "quick" else 600):
+        pick = [rnd.choice(with_opts) for _ in range(rnd.randrange(1, 3))]
+        pick = pick + [rnd.choice(pick)] + ([rnd.choice(names)] if rnd.random() < 0.5 else [])
+        rnd.shuffle(pick)
+        cases += 1
+        note(check_pipeline_with_options(pick, f"{seed}/{k}"))
     maxlen = 3 if tier == "quick" else 4
     for L in range(0, maxlen + 1):
         for t in itertools.product(ALPHABET, repeat=L):
@@ -212,7 +266,7 @@ def explore(tier, seed):
         note(check_robust("".join(rnd.choice(ALPHABET) for _ in range(rnd.randrange(4, 14)))))
     return {"cases": cases, "failures": fails, "exhaustive": False, "nontrivial": cases,
             "bound": f"{len(singles)} single values + seeded tuples through ArgSpec.__str__/parse_spec; {len(names)} registered passes x seeded option assignments per declared field type; "
-                     f"seeded pipelines of 2-4 passes; robustness: ALL strings of length <= {maxlen} over a {len(ALPHABET)}-character token alphabet + seeded strings of length 4-13"}
+                     f"seeded pipelines of 2-4 passes, and of 2-4 passes with generated options in which one pass occurs twice; robustness: ALL strings of length <= {maxlen} over a {len(ALPHABET)}-character token alphabet + seeded strings of length 4-13"}
 
 
 NATIVE = [("pipeline-spec-roundtrip", explore)]
